@@ -76,11 +76,19 @@ def router_models(ck):
         ck.model("Router-2x3-rook-looped-4levels", "MCRouter.tla", "MCRouter_r23.cfg", note=note, workers=8)
 
 
+BIG_SPEC = ("BigGridTrace.tla", "BigGridTrace.cfg")
+
+
 def plan_C04(ck):
     q = ck.tier == "quick"
     router_models(ck)
     ck.traces(cf.router_cases(ck.seed + 4, 300 if q else 8000, 5 if q else 8, "C04"), ["C04"], tag="c04",
               nontrivial=cf.nontrivial_world)
+    if q and ck.violations:
+        return
+    # grids of 260 000+ nodes, receivers observed at sampled nodes (sequential and multi-threaded router)
+    ck.traces(cg.big_cases(ck.seed + 404, 2 if q else 16, "C04big", queries=False), ["C04"], tag="c04big", spec=BIG_SPEC,
+              sample_events=("BigRoute",), timeout_ms=120000)
 
 
 def plan_C05(ck):
@@ -358,6 +366,11 @@ def plan_C07(ck):
     grid_models(ck)
     ck.traces(cg.neighbourhood_cases(ck.seed + 7, ck.tier, "C07"), ["C07"], tag="c07", spec=GRID_SPEC, sample_events=("Q",))
     ck.ev.cov["exhaustive"] = True
+    if ck.tier == "quick" and ck.violations:
+        return
+    # grids of 260 000+ nodes, accessors queried at sampled nodes (cache capacity / index arithmetic thresholds)
+    ck.traces(cg.big_cases(ck.seed + 407, 2 if ck.tier == "quick" else 16, "C07big", routes=False), ["C07"], tag="c07big",
+              spec=BIG_SPEC, sample_events=("BigQ",), timeout_ms=120000)
 
 
 def plan_C17(ck):
